@@ -1,0 +1,128 @@
+//! Verification hooks. Compiled only with the `verif-hooks` feature; adds no behaviour.
+#![allow(missing_docs, clippy::all)]
+
+use crate::codec::{FramedIo, Message, ZmqCodec, ZmqCommand, ZmqGreeting};
+use crate::fair_queue::FairQueue;
+use crate::util::PeerIdentity;
+use crate::{MultiPeerBackend, SocketType, ZmqMessage, ZmqResult};
+
+use asynchronous_codec::{Decoder, Encoder};
+use bytes::{Bytes, BytesMut};
+use futures::{AsyncRead, AsyncWrite, Stream};
+
+use std::collections::HashMap;
+use std::hash::Hash;
+use std::pin::Pin;
+use std::sync::Arc;
+use std::task::{Context, Poll};
+
+/// Canonical, public view of a decoded item.
+#[derive(Debug, Clone, PartialEq, Eq)]
+pub enum Item {
+    Greeting { version: (u8, u8), mechanism: String, as_server: bool },
+    Command { name: String, props: Vec<(String, Vec<u8>)> },
+    Message(Vec<Vec<u8>>),
+}
+
+fn canon(m: Message) -> Item {
+    match m {
+        Message::Greeting(g) => Item::Greeting {
+            version: g.version,
+            mechanism: g.mechanism.to_string(),
+            as_server: g.as_server,
+        },
+        Message::Command(c) => {
+            let mut props: Vec<(String, Vec<u8>)> =
+                c.properties.into_iter().map(|(k, v)| (k, v.to_vec())).collect();
+            props.sort();
+            Item::Command { name: c.name.to_string(), props }
+        }
+        Message::Message(m) => Item::Message(m.into_vec().into_iter().map(|b| b.to_vec()).collect()),
+    }
+}
+
+/// The private frame codec.
+pub struct Codec(ZmqCodec);
+
+impl Codec {
+    pub fn new() -> Self {
+        Codec(ZmqCodec::new())
+    }
+    pub fn decode(&mut self, buf: &mut BytesMut) -> Result<Option<Item>, String> {
+        self.0.decode(buf).map(|o| o.map(canon)).map_err(|e| format!("{:?}", e))
+    }
+    pub fn debug_state(&self) -> String {
+        format!("{:?}", self.0)
+    }
+    pub fn encode_message(frames: Vec<Vec<u8>>) -> Vec<u8> {
+        let v: Vec<Bytes> = frames.into_iter().map(Bytes::from).collect();
+        let m = ZmqMessage::try_from(v).expect("at least one frame");
+        let mut dst = BytesMut::new();
+        ZmqCodec::new().encode(Message::Message(m), &mut dst).expect("encode");
+        dst.to_vec()
+    }
+    pub fn encode_greeting() -> Vec<u8> {
+        let mut dst = BytesMut::new();
+        ZmqCodec::new()
+            .encode(Message::Greeting(ZmqGreeting::default()), &mut dst)
+            .expect("encode");
+        dst.to_vec()
+    }
+    pub fn encode_ready(socket_type: SocketType, identity: Option<Vec<u8>>) -> Vec<u8> {
+        let mut ready = ZmqCommand::ready(socket_type);
+        if let Some(id) = identity {
+            let mut props = HashMap::new();
+            props.insert("Identity".to_string(), Bytes::from(id));
+            ready.add_properties(props);
+        }
+        let mut dst = BytesMut::new();
+        ZmqCodec::new().encode(Message::Command(ready), &mut dst).expect("encode");
+        dst.to_vec()
+    }
+}
+
+/// Runs the real greeting + READY handshake and peer registration over a
+/// harness-supplied byte pipe.
+pub async fn attach<R, W>(
+    backend: Arc<dyn MultiPeerBackend>,
+    reader: R,
+    writer: W,
+) -> ZmqResult<Vec<u8>>
+where
+    R: AsyncRead + Unpin + Send + Sync + 'static,
+    W: AsyncWrite + Unpin + Send + Sync + 'static,
+{
+    let io = FramedIo::new(Box::new(reader), Box::new(writer));
+    let id: PeerIdentity = crate::util::peer_connected(io, backend).await?;
+    Ok(id.into())
+}
+
+/// The private fair queue.
+pub struct FairQueueProbe<S, K: Clone>(FairQueue<S, K>);
+
+impl<S, T, K> FairQueueProbe<S, K>
+where
+    T: Send,
+    S: Stream<Item = T> + Send + 'static,
+    K: Eq + Hash + Unpin + Clone + Send + Sync + 'static,
+{
+    pub fn new(block_on_no_clients: bool) -> Self {
+        FairQueueProbe(FairQueue::new(block_on_no_clients))
+    }
+    pub fn insert(&self, k: K, s: S) {
+        self.0.inner().lock().insert(k, s);
+    }
+    pub fn remove(&self, k: &K) {
+        self.0.inner().lock().remove(k);
+    }
+    pub fn poll_next(&mut self, cx: &mut Context<'_>) -> Poll<Option<(K, T)>> {
+        Pin::new(&mut self.0).poll_next(cx)
+    }
+}
+
+/// `ZmqMechanism::try_from` on a raw (20-byte) mechanism field.
+pub fn parse_mechanism(field: &[u8]) -> Result<String, String> {
+    crate::codec::mechanism::ZmqMechanism::try_from(field)
+        .map(|m| m.to_string())
+        .map_err(|e| format!("{:?}", e))
+}
